@@ -8,7 +8,7 @@ import sys
 
 def main():
     ok = True
-    for tool in ("java", "rsync", "strace"):
+    for tool in ("java", "rsync", "strace", "tlapm", "apalache-mc"):
         if shutil.which(tool) is None:
             print("missing tool:", tool)
             ok = False
@@ -17,7 +17,8 @@ def main():
         ok = False
     spec = os.path.join(os.path.dirname(os.path.dirname(os.path.abspath(__file__))), "spec")
     for mod in sorted(f for f in os.listdir(spec) if f.endswith(".tla")):
-        r = subprocess.run(["java", "-cp", "/opt/veriftools/tla/tla2tools.jar:/opt/veriftools/tla/CommunityModules-deps.jar",
+        r = subprocess.run(["java", "-DTLA-Library=/opt/veriftools/tlapm/lib/tlapm/stdlib",     # TLAPS.tla for the proof module
+                            "-cp", "/opt/veriftools/tla/tla2tools.jar:/opt/veriftools/tla/CommunityModules-deps.jar",
                             "tla2sany.SANY", mod], cwd=spec, stdout=subprocess.PIPE, stderr=subprocess.STDOUT, text=True)
         if "Fatal" in r.stdout or "*** Errors" in r.stdout or "Could not" in r.stdout:
             print("SANY rejects", mod)
